@@ -868,3 +868,16 @@ Lemma union_order_witness :
   run_pack E_look Codec None (TUnion [TData "K1"; TData "K0"]) v_look = Ok (VDict [("x", VStr "2020-01-02")]) /\
   run_pack E_look Codec None (TUnion [TData "K0"; TData "K1"]) v_look = Ok (VDict [("x", VDate "2020-01-02")]).
 Proof. repeat split; reflexivity. Qed.
+
+(* a union with container members (outside simple_member): on the mixin path the tuple member's packer accepts a
+   list of instances of ANOTHER class (dynamic dispatch finds their method, `str` positions are not checked) and
+   leaks an instance; the codec path's static call fails and the right member is taken *)
+Definition E_uc : env :=
+  [mkC "A" None [f_ "x" TInt] None true; mkC "B" None [f_ "y" TInt] None true].
+Definition t_uc := TUnion [TTuple [TData "A"; TStr]; TList (TData "B")].
+Definition v_uc := VList [VObj "B" [("y", VInt 1)]; VObj "B" [("y", VInt 2)]].
+Lemma union_container_witness :
+  exact E_uc v_uc t_uc = true /\
+  run_pack E_uc Mixin None t_uc v_uc = Ok (VList [VDict [("y", VInt 1)]; VObj "B" [("y", VInt 2)]]) /\
+  run_pack E_uc Codec None t_uc v_uc = Ok (VList [VDict [("y", VInt 1)]; VDict [("y", VInt 2)]]).
+Proof. repeat split; reflexivity. Qed.
